@@ -26,7 +26,8 @@
      StopAfterFirst   - only the first redirect is followed
      RelToFirstHost   - a relative Location is sent to the first host instead of the current one
      AbsKeepsHost     - an absolute Location changes the path but not the address
-     Skip307          - 307 is not followed *)
+     Skip307          - 307 is not followed
+     RefuseRevisit    - a redirect to a (host, path) that was already requested is refused as a loop *)
 EXTENDS Naturals, Sequences, TLC
 
 CONSTANTS MaxHops,      \* longest redirect chain
@@ -56,7 +57,16 @@ LocString(l) == IF l.kind = "none" THEN ""
 RespRec(code, loc, framing, id, at) == [code |-> code, loc |-> loc, framing |-> framing, id |-> id, at |-> at]
 NoResp == RespRec(0, NoLoc, "none", 0, [host |-> 0, path |-> 0])
 
+\* How the server names the hops of the chain it plays.  "distinct": hop i lives at /h<i>.  A server with state may send the
+\* client back to where it has been - the chain is finite all the same, the server answers differently the second time:
+\* "pingpong": hop i lives at /h<i mod 2> (/h0 -> /h1 -> /h0 -> ... -> final), "self": every hop lives at /h0 (redirect to
+\* itself until the state has changed).  A client must follow these like any other chain (added after a seeded "redirect loop
+\* detector" that refused every revisit was missed, round 7).  MC configs override PathModes.
+PathModes == {"distinct"}
+PName(m, i) == IF m = "pingpong" THEN i % 2 ELSE IF m = "self" THEN 0 ELSE i
+
 VARIABLES
+  pmode,     \* the naming the server uses in this behaviour
   cpc,       \* "send" | "await" | "read" | "decide" | "done" | "error"
   follow,    \* with_redirects(..)
   followNow, \* the flag as the running request sees it (differs from follow only under StopAfterFirst)
@@ -69,9 +79,10 @@ VARIABLES
   inflight,  \* the response on the wire
   resp,      \* client: the response parsed last
   got        \* client: the value returned by send()
-vars == <<cpc, follow, followNow, target, host0, expect, ended, sent, reqs, inflight, resp, got>>
+vars == <<pmode, cpc, follow, followNow, target, host0, expect, ended, sent, reqs, inflight, resp, got>>
 
 Init ==
+  /\ pmode \in PathModes
   /\ cpc = "send" /\ follow \in FollowModes /\ followNow = follow
   /\ target = [host |-> 1, path |-> 0] /\ host0 = 1
   /\ expect = [host |-> 1, path |-> 0] /\ ended = FALSE
@@ -81,7 +92,7 @@ Cl_Send ==
   /\ cpc = "send"
   /\ reqs' = Append(reqs, target)
   /\ cpc' = "await"
-  /\ UNCHANGED <<follow, followNow, target, host0, expect, ended, sent, inflight, resp, got>>
+  /\ UNCHANGED <<pmode, follow, followNow, target, host0, expect, ended, sent, inflight, resp, got>>
 
 \* the server's move: continue the chain, end it, or (request for something else) answer "lost"
 Srv_Respond ==
@@ -94,10 +105,10 @@ Srv_Respond ==
      ELSE \/ /\ i < MaxHops                                        \* one more hop
              /\ \E code \in RedirCodes, kind \in Kinds :
                   LET nh  == IF kind = "abs" THEN AbsHost(i) ELSE target.host
-                      loc == [kind |-> kind, host |-> (IF kind = "abs" THEN nh ELSE 0), path |-> i + 1]
+                      loc == [kind |-> kind, host |-> (IF kind = "abs" THEN nh ELSE 0), path |-> PName(pmode, i + 1)]
                   IN /\ inflight' = RespRec(code, loc, "cl", i, target)
                      /\ sent' = Append(sent, inflight')
-                     /\ expect' = [host |-> nh, path |-> i + 1]
+                     /\ expect' = [host |-> nh, path |-> PName(pmode, i + 1)]
              /\ UNCHANGED ended
           \/ /\ \E f \in Finals :                                  \* the final response
                   /\ inflight' = RespRec(f.code, IF f.loc THEN [kind |-> "rel", host |-> 0, path |-> TrapPath] ELSE NoLoc,
@@ -106,12 +117,12 @@ Srv_Respond ==
              /\ ended' = TRUE
              /\ UNCHANGED expect
   /\ cpc' = "read"
-  /\ UNCHANGED <<follow, followNow, target, host0, reqs, resp, got>>
+  /\ UNCHANGED <<pmode, follow, followNow, target, host0, reqs, resp, got>>
 
 Cl_Read ==
   /\ cpc = "read"
   /\ resp' = inflight /\ cpc' = "decide"
-  /\ UNCHANGED <<follow, followNow, target, host0, expect, ended, sent, reqs, inflight, got>>
+  /\ UNCHANGED <<pmode, follow, followNow, target, host0, expect, ended, sent, reqs, inflight, got>>
 
 Followed(code) == \/ code \in ({301, 302, 307} \ (IF "Skip307" \in Dev THEN {307} ELSE {}))
                   \/ ("Follow303" \in Dev /\ code = 303)
@@ -119,17 +130,20 @@ Followed(code) == \/ code \in ({301, 302, 307} \ (IF "Skip307" \in Dev THEN {307
 Cl_Redirect ==
   /\ cpc = "decide" /\ followNow /\ Followed(resp.code)
   /\ IF resp.loc.kind = "none" THEN cpc' = "error" /\ UNCHANGED target          \* "No location header"
+     ELSE IF "RefuseRevisit" \in Dev /\ \E k \in 1..Len(reqs) :
+                 reqs[k] = [host |-> (IF resp.loc.kind = "rel" THEN target.host ELSE resp.loc.host), path |-> resp.loc.path]
+          THEN cpc' = "error" /\ UNCHANGED target
      ELSE /\ cpc' = "send"
           /\ target' = IF resp.loc.kind = "rel"
                        THEN [host |-> (IF "RelToFirstHost" \in Dev THEN host0 ELSE target.host), path |-> resp.loc.path]
                        ELSE [host |-> (IF "AbsKeepsHost" \in Dev THEN target.host ELSE resp.loc.host), path |-> resp.loc.path]
   /\ followNow' = (IF "StopAfterFirst" \in Dev THEN FALSE ELSE followNow)
-  /\ UNCHANGED <<follow, host0, expect, ended, sent, reqs, inflight, resp, got>>
+  /\ UNCHANGED <<pmode, follow, host0, expect, ended, sent, reqs, inflight, resp, got>>
 
 Cl_Return ==
   /\ cpc = "decide" /\ ~(followNow /\ Followed(resp.code))
   /\ got' = resp /\ cpc' = "done"
-  /\ UNCHANGED <<follow, followNow, target, host0, expect, ended, sent, reqs, inflight, resp>>
+  /\ UNCHANGED <<pmode, follow, followNow, target, host0, expect, ended, sent, reqs, inflight, resp>>
 
 Next == Cl_Send \/ Srv_Respond \/ Cl_Read \/ Cl_Redirect \/ Cl_Return
 Spec == Init /\ [][Next]_vars /\ WF_vars(Next)
@@ -141,7 +155,7 @@ IsRedirect(r) == r.code \in {301, 302, 307}
 EndsAtFinal == (cpc = "done" /\ follow) => (ended /\ got = Last(sent) /\ ~IsRedirect(got) /\ got.id # 1000)
 \* ... having asked for every hop exactly once, in order
 OneRequestPerHop == (cpc = "done" /\ follow) =>
-                       (Len(reqs) = Len(sent) /\ \A i \in 1..Len(reqs) : reqs[i].path = i - 1)
+                       (Len(reqs) = Len(sent) /\ \A i \in 1..Len(reqs) : reqs[i].path = PName(pmode, i - 1))
 \* without following it returns the first response, whatever it is
 NoFollowReturnsFirst == (cpc = "done" /\ ~follow) => (Len(sent) = 1 /\ got = sent[1])
 \* the server never has to answer "lost", the client never fails on a well-formed chain
